@@ -239,7 +239,9 @@ func c48Exec(hist []c48Op) (res vsched.StepResult) {
 		all = append(all, o)
 		viol = append(viol, v...)
 	}
-	return vsched.StepResult{Canon: canon, Obs: obs + " [" + strings.Join(all, " ") + "] " + canon, Violations: viol}
+	// observation = result of the last operation + Get of every key + shape of the private state
+	// (coarser than the canonical state so that the distinct-observation sets stay small)
+	return vsched.StepResult{Canon: canon, Obs: fmt.Sprintf("%s [%s] h%d n%d i%d", obs, strings.Join(all, " "), tm.head, len(tm.order), len(tm.items)), Violations: viol}
 }
 
 func TestVerifC48(t *testing.T) {
@@ -247,7 +249,7 @@ func TestVerifC48(t *testing.T) {
 	r := vsched.Rep()
 	r.Assumption("fake clock through the map's private `now` field; the clock never goes back; ttl > 0; single goroutine (the map's mutex is not under test)")
 	alpha := c48Alphabet()
-	vsched.BFS(vsched.BFSConfig{Scenario: "ttlmap-3keys", Depth: vsched.Pick(7, 9), ShardFirstOp: true,
+	vsched.BFS(vsched.BFSConfig{Scenario: "ttlmap-3keys", Depth: vsched.Pick(8, 10), ShardFirstOp: true,
 		Params: map[string]any{"keys": c48Keys, "values": []int{1, 2}, "ttl": c48TTL, "advance": []int{1, c48TTL - 1, c48TTL}, "alphabet": fmt.Sprint(alpha)}},
 		func([]c48Op) []c48Op { return alpha }, c48Exec, func(o c48Op) string { return o.String() })
 
@@ -271,7 +273,7 @@ func TestVerifC48(t *testing.T) {
 	for _, o := range c48Seed {
 		seed = append(seed, o.String())
 	}
-	vsched.BFS(vsched.BFSConfig{Scenario: "ttlmap-3keys-seeded", Depth: vsched.Pick(5, 7), ShardFirstOp: true,
+	vsched.BFS(vsched.BFSConfig{Scenario: "ttlmap-3keys-seeded", Depth: vsched.Pick(6, 8), ShardFirstOp: true,
 		Params: map[string]any{"preamble": seed, "keys": c48Keys, "values": []int{1, 2}, "ttl": c48TTL, "advance": []int{1, c48TTL - 1, c48TTL}}},
 		func([]c48Op) []c48Op { return alpha }, c48ExecSeeded, func(o c48Op) string { return o.String() })
 }
